@@ -34,17 +34,25 @@ func init() {
 		if s, line, err := getPrevSnapshot(id, p); err == nil {
 			prev = fmt.Sprintf("%s@%d", vhex([]byte(s)), line)
 		}
+		// the two writers are exercised under their production preconditions only: an entry is appended after the reader
+		// did not find the header, rewritten after it did ("~" = not applicable)
 		fresh()
-		added := "!"
-		if err := addNewSnapshot(id, val, p); err == nil {
-			b, _ := os.ReadFile(p)
-			added = vhex(b)
+		added := "~"
+		if prev == "~" {
+			added = "!"
+			if err := addNewSnapshot(id, val, p); err == nil {
+				b, _ := os.ReadFile(p)
+				added = vhex(b)
+			}
 		}
 		fresh()
-		updated := "!"
-		if err := updateSnapshot(id, val, p); err == nil {
-			b, _ := os.ReadFile(p)
-			updated = vhex(b)
+		updated := "~"
+		if prev != "~" {
+			updated = "!"
+			if err := updateSnapshot(id, val, p); err == nil {
+				b, _ := os.ReadFile(p)
+				updated = vhex(b)
+			}
 		}
 		os.RemoveAll(dir)
 		r.sb.pin()
